@@ -1,29 +1,57 @@
+//! Modules are gated by per-property cargo features (`p01` … `p20`, `p05m`; default = all) so that
+//! `./check Cxx` can fall back to building only the modules property Cxx needs when another module
+//! stops compiling against a changed /repo (e.g. a crate-private signature a hook user relies on).
 pub mod common;
-pub mod genstate;
-pub mod grad;
 pub mod mapgen;
 pub mod rng;
-pub mod svops;
 
-pub mod c01;
-pub mod c02;
-pub mod c03;
-pub mod c04;
-pub mod c05;
-pub mod c05_models;
-pub mod c06;
-pub mod c07;
-pub mod c08;
-pub mod c09;
-pub mod c10;
-pub mod c11;
-pub mod c12;
-pub mod c13;
-pub mod c14;
-pub mod c15;
-pub mod c16;
-pub mod c17;
-pub mod c18;
-pub mod c19;
-pub mod c20;
+#[cfg(any(feature = "p12" , feature = "p13"))]
+pub mod genstate;
+#[cfg(any(feature = "p01" , feature = "p02" , feature = "p03" , feature = "p04" , feature = "p07" , feature = "p08" , feature = "p09" , feature = "p10" , feature = "p11" , feature = "p14" , feature = "p15" , feature = "p16" , feature = "p17" , feature = "p18" , feature = "p20"))]
+pub mod grad;
+#[cfg(any(feature = "p09" , feature = "p10" , feature = "p11" , feature = "p16"))]
+pub mod svops;
+#[cfg(any(feature = "p01" , feature = "p20"))]
 pub mod hist;
+#[cfg(any(feature = "p05m"))]
+pub mod c05_models;
+#[cfg(any(feature = "p01"))]
+pub mod c01;
+#[cfg(any(feature = "p02"))]
+pub mod c02;
+#[cfg(any(feature = "p03"))]
+pub mod c03;
+#[cfg(any(feature = "p04" , feature = "p07"))]
+pub mod c04;
+#[cfg(any(feature = "p05"))]
+pub mod c05;
+#[cfg(any(feature = "p06" , feature = "p19"))]
+pub mod c06;
+#[cfg(any(feature = "p07"))]
+pub mod c07;
+#[cfg(any(feature = "p08"))]
+pub mod c08;
+#[cfg(any(feature = "p09"))]
+pub mod c09;
+#[cfg(any(feature = "p10"))]
+pub mod c10;
+#[cfg(any(feature = "p11"))]
+pub mod c11;
+#[cfg(any(feature = "p12"))]
+pub mod c12;
+#[cfg(any(feature = "p13"))]
+pub mod c13;
+#[cfg(any(feature = "p14"))]
+pub mod c14;
+#[cfg(any(feature = "p15"))]
+pub mod c15;
+#[cfg(any(feature = "p09" , feature = "p10" , feature = "p16"))]
+pub mod c16;
+#[cfg(any(feature = "p17"))]
+pub mod c17;
+#[cfg(any(feature = "p18"))]
+pub mod c18;
+#[cfg(any(feature = "p19"))]
+pub mod c19;
+#[cfg(any(feature = "p20"))]
+pub mod c20;
